@@ -499,15 +499,20 @@ theorem filter_disj (l : TxList) (c g : Nat) :
         omega
       · rw [if_neg h3] at hx; simp at hx
 
-theorem capIf0_disj {l : TxList} (P : Prop) [Decidable P] :
-    ∀ y ∈ (if P then l.cap 0 else (l, [])).1.txs, ∀ x ∈ (if P then l.cap 0 else (l, [])).2, False := by
+theorem capIf_disj {l : TxList} (hs : Sorted l.txs) (P : Prop) [Decidable P] (k : Nat) :
+    ∀ y ∈ (if P then l.cap k else (l, [])).1.txs, ∀ x ∈ (if P then l.cap k else (l, [])).2,
+      y.nonce ≠ x.nonce := by
   intro y hy x hx
   by_cases hP : P
   · simp only [hP, if_true] at hy hx
     unfold TxList.cap at hy hx
-    by_cases hl : l.txs.length ≤ 0
+    by_cases hl : l.txs.length ≤ k
     · simp [hl] at hx
-    · simp [hl] at hy
+    · simp only [hl, if_false, List.mem_reverse] at hy hx
+      unfold Sorted at hs
+      rw [← List.take_append_drop k l.txs] at hs
+      have := (List.pairwise_append.mp hs).2.2 y hy x hx
+      omega
   · simp [hP] at hx
 
 theorem notInP_finish {p4 : Pool} {a b m : Nat} {G1 : TxList} {x : Tx} (hxs : x.sender = a)
@@ -549,8 +554,8 @@ theorem demoteAccount_dem {p : Pool} (h : Good Φ p) (a : Nat) : Dem p (p.demote
           exact filter_disj _ _ _ y (capIf_sub _ _ y hy) x hx
       · right
         refine notInP_finish (hsnd x (filter_sub _ _ _ x (capIf_drops_sub _ _ x hx))) hbx hmx ?_
-        intro y hy hyx
-        exact capIf0_disj _ y hy x hx
+        intro y hy
+        exact capIf_disj (wf_filter _ _ _ (wf_forward _ _ hl0.1)).1 _ _ y hy x hx
 
 theorem demoteUnexecutables_dem {p : Pool} (h : Good Φ p) : Dem p p.demoteUnexecutables := by
   unfold demoteUnexecutables
@@ -676,16 +681,22 @@ theorem runReorg_none_ndisj {p : Pool} (h : Good Φ p) (hpq : Φ.PQ) (hn : NDisj
   exact reorgTail_ndisj (promoteExecutables_spec h dirty).1 hpq
     ((promoteExecutables_pro dirty h).ndisj hn) _
 
+theorem afterDemote_ndisj {c' : Chain} {p1 : Pool} (h1 : Good (weakPhi c') p1) (n1 : NDisj p1) :
+    NDisj (afterDemote p1) := by
+  unfold afterDemote
+  have h2 := (promoteExecutables_spec h1 (p1.queue.map (·.1))).1
+  have n2 := (promoteExecutables_pro (p1.queue.map (·.1)) h1).ndisj n1
+  exact (demoteUnexecutables_dem h2).ndisj n2
+
+theorem reorgAfterReset_ndisj {c' : Chain} {p1 : Pool} (h1 : Good (weakPhi c') p1) (n1 : NDisj p1) :
+    ∀ q ∈ reorgAfterReset p1, NDisj q := by
+  rw [reorgAfterReset_eq]
+  exact reorgTail_ndisj (good_afterDemote h1) (strongPhi_PQ c') (afterDemote_ndisj h1 n1) _
+
 theorem runReorg_reset_ndisj {p : Pool} (h : Good (strongPhi c) p) (hn : NDisj p) (c' : Chain)
     (dirty : List Nat) : ∀ q ∈ p.runReorg (some c') dirty, NDisj q := by
-  have h1 := good_resetHead h c'
-  have n1 : NDisj (p.resetHead c') := (Dem.frame (p := p) rfl rfl).ndisj hn
-  have h2 := (promoteExecutables_spec h1 ((p.resetHead c').queue.map (·.1))).1
-  have n2 := (promoteExecutables_pro ((p.resetHead c').queue.map (·.1)) h1).ndisj n1
-  have h3 := (demoteUnexecutables_spec h2).1
-  have n3 := (demoteUnexecutables_dem h2).ndisj n2
   rw [runReorg_some]
-  exact reorgTail_ndisj h3 (weakPhi_PQ c') n3 _
+  exact reorgAfterReset_ndisj (good_resetHead h c') ((Dem.frame (p := p) rfl rfl).ndisj hn)
 
 theorem addBatch_ndisj (txs : List Tx) {p : Pool} (h : Good Φ p) (hpq : Φ.PQ) (hn : NDisj p) (loc : Bool) :
     ∀ r ∈ p.addBatch loc txs, NDisj r.1 := by
@@ -728,6 +739,16 @@ theorem expire_ndisj {p : Pool} (h : Good Φ p) (hpq : Φ.PQ) (hn : NDisj p) (a 
   · split
     · exact hn
     · exact (removeL_dem h hpq _).1.ndisj hn
+
+theorem resetReinject_ndisj {p : Pool} (h : Good (strongPhi c) p) (hn : NDisj p) (c' : Chain)
+    (reinject : List Tx) : ∀ q ∈ p.resetReinject c' reinject, NDisj q := by
+  intro q hq
+  simp only [resetReinject, List.mem_flatMap] at hq
+  obtain ⟨r, hr, hq⟩ := hq
+  have h1 := good_resetHead h c'
+  have n1 : NDisj (p.resetHead c') := (Dem.frame (p := p) rfl rfl).ndisj hn
+  exact reorgAfterReset_ndisj (good_addBatch reinject h1 (weakPhi_PQ c') false r hr)
+    (addBatch_ndisj reinject h1 (weakPhi_PQ c') n1 false r hr) q hq
 
 end Pool
 end KV.TxPool
